@@ -41,7 +41,8 @@ theorem lookup_filter_keys : ∀ (kw : Kwargs) (names : List Nat) (n : Nat), nam
   | (k, v) :: r, names, n, hin => by
     by_cases hk : k = n
     · subst hk
-      simp [List.filter, hin, lookup]
+      have hin' : k ∈ names := by simpa using hin
+      simp [List.filter, hin', lookup]
     · have hb : (k == n) = false := by simpa using hk
       cases hc : names.contains k with
       | true =>
@@ -51,35 +52,40 @@ theorem lookup_filter_keys : ∀ (kw : Kwargs) (names : List Nat) (n : Nat), nam
         simp only [List.filter, hc, lookup, hb]
         exact lookup_filter_keys r names n hin
 
+theorem gate_cond {g : Gate} {valid : Obj → Bool} {p : Obj} (hc : ¬ (g.on && !valid p) = true) (hg : g.on = true) :
+    valid p = true := by
+  cases hv : valid p with
+  | true => rfl
+  | false => simp [hg, hv] at hc
+
 /-- when `add` returns it returns the child, and with the gate on the parent as it now is validates -/
 theorem c10_returns_child (T : Table) (valid strOk : Obj → Bool) (g : Gate) (parent child : Obj)
     (hint : Option Nat) (force : Bool) (o : Obj)
     (h : (Add.add T valid strOk g parent child hint force).result = .ok o) :
     o = child ∧ (g.on = true → valid (Add.add T valid strOk g parent child hint force).parent = true) := by
   unfold Add.add addWith addCore at h ⊢
-  cases hs : select true (targets (T.getMembers parent.cls) child.cls) hint with
-  | error e => rw [hs] at h; cases h
-  | ok om =>
-    rw [hs] at h ⊢
-    cases om with
-    | none => exact absurd hs select_strict_ne_none
-    | some m =>
+  generalize select true (targets (T.getMembers parent.cls) child.cls) hint = sel at h ⊢
+  match sel with
+  | .error e => simp at h
+  | .ok none =>
+    simp only at h ⊢
+    split at h
+    · cases h
+    · rename_i hc
+      simp only [Except.ok.injEq] at h
+      exact ⟨h.symm, fun hg => gate_cond hc hg⟩
+  | .ok (some m) =>
+    simp only at h ⊢
+    generalize place (strOk child) parent child m force = pl at h ⊢
+    match pl with
+    | .error e => simp at h
+    | .ok (p', w) =>
       simp only at h ⊢
-      cases hp : place (strOk child) parent child m force with
-      | error e => rw [hp] at h; cases h
-      | ok pw =>
-        obtain ⟨p', w⟩ := pw
-        rw [hp] at h ⊢
-        simp only at h ⊢
-        split at h
-        · cases h
-        · rename_i hcond
-          simp only [Except.ok.injEq] at h
-          refine ⟨h.symm, fun hg => ?_⟩
-          rw [hg] at hcond
-          cases hv : valid p' with
-          | true => rfl
-          | false => simp [hv] at hcond
+      split at h
+      · cases h
+      · rename_i hc
+        simp only [Except.ok.injEq] at h
+        exact ⟨h.symm, fun hg => gate_cond hc hg⟩
 
 /-- with the gate off `validate()` plays no role -/
 theorem add_gate_off (T : Table) (valid valid' strOk : Obj → Bool) (g : Gate) (parent child : Obj)
